@@ -68,10 +68,10 @@ func (p *P) Components() map[string]string {
 
 type cell struct {
 	op    ops.Op
-	purge bool // a GC cycle empties all pools just before this operation
-	seq  string // result when run alone
-	conc string
-	done bool
+	purge bool   // a GC cycle empties all pools just before this operation
+	seq   string // result when run alone
+	conc  string
+	done  bool
 }
 
 func (p *P) Run(src *tape.Source, trace bool) *core.Result {
